@@ -3,7 +3,7 @@ import SaModel.Lemmas.C01DefaultAt
 /-
 Completeness, non-recursive operations: `serialize_default` (k placeholders) and `serialize_none` succeed on every
 builder whose schema supports them, at the cost of at most one unit of head room per call (none unless a union
-receives the default: one row of its first real variant, repo fix fe68100).
+receives the default: one row of its first real variant, repo fix 217d612).
 -/
 namespace SaModel.Build
 open SaModel SaModel.Spec
